@@ -1,6 +1,8 @@
 package main
 
 import (
+	"gopkg.in/yaml.v3"
+
 	"fmt"
 	"math/rand"
 	"net/http"
@@ -17,10 +19,11 @@ import (
 // policy written with net/netip (the product uses package net).
 
 type c10Case struct {
-	Idx   int    `json:"idx"`
-	Token string `json:"token"`
+	Idx   int      `json:"idx"`
+	Token string   `json:"token"`
 	Allow []string `json:"allow"`
 	Deny  []string `json:"deny"`
+	YAML  bool     `json:"via_yaml,omitempty"` // the configuration is written as YAML and loaded by config.LoadConfig
 }
 
 type c10Policy struct {
@@ -224,16 +227,42 @@ func init() {
 						}
 					}
 				}
+				if i%35 == 5 { // a list whose only entries are blank
+					blank := []string{"", "   "}[r.Intn(2)]
+					if r.Intn(2) == 0 {
+						c.Allow, c.Deny = []string{blank}, nil
+					} else {
+						c.Allow, c.Deny = nil, []string{blank, ""}
+					}
+				}
+				c.YAML = i%5 == 2 || i%35 == 5
 				cs = append(cs, c)
 			}
 			return cs
 		},
 		func(e *vh.Env, c c10Case, o *vh.Out) {
-			o.Need("requests", "served", "refused_401", "refused_403", "forged_header_pairs")
+			o.Need("requests", "served", "refused_401", "refused_403", "forged_header_pairs", "configs_loaded_from_yaml")
 			r := e.Rand("c10", c.Idx)
 			cfg := baseConfig("round_robin", nil)
 			cfg.Backends = []config.BackendConfig{{Name: "b0", Address: "http://127.0.0.1:9", Weight: 2}, {Name: "b1", Address: "http://127.0.0.1:9", Weight: 1}}
 			cfg.AdminAPI = config.AdminAPIConfig{Enabled: true, Port: 9091, AuthToken: c.Token, IPAllowList: c.Allow, IPDenyList: c.Deny}
+			if c.YAML {
+				// the same configuration as the binary gets it: written as YAML and read back by config.LoadConfig
+				doc := map[string]any{
+					"server":    map[string]any{"port": 8080},
+					"backends":  []map[string]any{{"name": "b0", "address": "http://127.0.0.1:9", "weight": 2}, {"name": "b1", "address": "http://127.0.0.1:9", "weight": 1}},
+					"logging":   map[string]any{"level": "fatal"},
+					"admin_api": map[string]any{"enabled": true, "port": 9091, "auth_token": c.Token, "ip_allow_list": c.Allow, "ip_deny_list": c.Deny},
+				}
+				text, _ := yaml.Marshal(doc)
+				loaded, err := c18LoadText(e, string(text), fmt.Sprintf("c10-%d", c.Idx))
+				if err == nil {
+					cfg = loaded
+					o.Obs("configs_loaded_from_yaml", 1)
+				} else {
+					o.Obs("yaml_configs_rejected_by_validation", 1) // a refused configuration serves nobody: nothing to compare
+				}
+			}
 			sys, err := startSys(cfg, nil, false)
 			if err != nil {
 				o.Inconcl("startSys: %v", err)
